@@ -21,17 +21,17 @@ type val struct{ id int }
 
 // rcall is one call of the resolver.
 type rcall struct {
-	n         int
-	ctx       context.Context
-	released  func()
-	entered   int
-	returned  int
-	v         *val
-	err       error
-	hasRel    bool
-	rel       int // number of times the release func ran
-	relAt     int
-	relInvAt  int // stamp of the first invocation of released() for this call (0 = never)
+	n        int
+	ctx      context.Context
+	released func()
+	entered  int
+	returned int
+	v        *val
+	err      error
+	hasRel   bool
+	rel      int // number of times the release func ran
+	relAt    int
+	relInvAt int // stamp of the first invocation of released() for this call (0 = never)
 }
 
 type told struct {
@@ -81,33 +81,33 @@ type consumer struct {
 }
 
 type accessInv struct {
-	n        int
-	rc       *rcall
-	ctx      context.Context
-	start    int
-	end      int
-	err      error
+	n     int
+	rc    *rcall
+	ctx   context.Context
+	start int
+	end   int
+	err   error
 }
 
 type world struct {
-	c         *core.Ctx
-	rc        *refcount.RefCount[*val]
-	keep      bool
-	target    *ccontainer.CContainer[*val]
-	targetErr *ccontainer.CContainer[*error]
-	calls     []*rcall
-	active    int
-	holders   []*holder
-	gates     []chan struct{}
-	apiCalls  []*actorCall
-	consumers []*consumer
-	ctxTag    int
-	ctxChangeInv []int // stamps at which a context change was invoked
-	ctxChangeRet []int // stamps at which it returned (0 while in flight)
-	stored    []*rcall // calls whose released() the invalidator may invoke
-	p5        []*rcall
-	byVal     map[*val]*rcall
-	byErr     map[error]*rcall
+	c            *core.Ctx
+	rc           *refcount.RefCount[*val]
+	keep         bool
+	target       *ccontainer.CContainer[*val]
+	targetErr    *ccontainer.CContainer[*error]
+	calls        []*rcall
+	active       int
+	holders      []*holder
+	gates        []chan struct{}
+	apiCalls     []*actorCall
+	consumers    []*consumer
+	ctxTag       int
+	ctxChangeInv []int    // stamps at which a context change was invoked
+	ctxChangeRet []int    // stamps at which it returned (0 while in flight)
+	stored       []*rcall // calls whose released() the invalidator may invoke
+	p5           []*rcall
+	byVal        map[*val]*rcall
+	byErr        map[error]*rcall
 }
 
 func (w *world) invalidated(rc *rcall, before int) bool {
@@ -174,6 +174,7 @@ func (w *world) resolver(ctx context.Context, released func()) (*val, func(), er
 	c := w.c
 	rc := &rcall{n: len(w.calls) + 1, ctx: ctx, released: released, entered: c.Tick()}
 	w.calls = append(w.calls, rc)
+	c.Pub()
 	if w.active > 0 {
 		c.Fail("C09.P1.two-resolver-calls", "resolver call %d entered while %d earlier call(s) have not returned", rc.n, w.active)
 	}
@@ -329,6 +330,7 @@ func (w *world) ctxChanger(nops int) {
 
 func (w *world) invalidate(rc *rcall, who string) {
 	c := w.c
+	c.Sub() // the released function was handed over by the resolver call
 	c.Descf("%s: released() of resolver call %d", who, rc.n)
 	c.S.Count("fault:invalidate")
 	now := c.Tick()
